@@ -168,7 +168,9 @@ pub fn run_stats_rt(
             // only when the reader gets to the end of the input: a framing failure before that (cut
             // packet, offset-to-next out of range) stops the read and nothing appended is reached
             // (a memory size below the header size makes the payload length meaningless: same effect)
-            let framed = w.end == itsgen::walker::WalkEnd::Clean && w.pkts.iter().all(|p| p.rdh.memory_size >= 64);
+            // and a memory size that differs from the offset-to-next desynchronises a payload-loading read)
+            let framed = w.end == itsgen::walker::WalkEnd::Clean
+                && w.pkts.iter().all(|p| p.rdh.memory_size >= 64 && p.rdh.memory_size == p.rdh.offset_next);
             if last.complete && framed {
                 let mut c = bb.clone();
                 let pkt = a.input[last.off..].to_vec();
